@@ -1,3 +1,12 @@
+/// `println!` for progress and listings that does not panic when stdout is gone (a pipe closed by `head` or a pager, a
+/// full disk behind a redirect): losing a progress line is not a reason to crash.
+macro_rules! out {
+  ($($arg:tt)*) => {{
+    use std::io::Write as _;
+    let _ = writeln!(std::io::stdout(), $($arg)*);
+  }};
+}
+
 pub mod cli;
 pub mod colors;
 pub mod commands;
